@@ -41,8 +41,11 @@ FUNCS = {
     "_isdist2_hamming": ({"x": "str", "reference": "strs"}, "bool"),
     "_isdist3_hamming": ({"x": "str", "reference": "strs"}, "bool"),
     "nndist_hamming": ({"seq": "str", "reference": "strs", "maxdist": "int"}, "optnat"),
+    "calculate_neighbor_numbers": ({"seqs": "strs", "reference": "optstrs", "neighborhood": "fn"}, "value"),
+    "find_neighbor_pairs_index": ({"seqs": "strs", "neighborhood": "fn"}, "acc"),
 }
 LEAN_TYPE = {"str": "List α", "chars": "List α", "optints": "Option (List Int)", "ints": "List Int", "strs": "List (List α)",
+             "optstrs": "Option (List (List α))", "pairs": "List (Int × Int)",
              "fn": "List α → List (List α)", "int": "Int", "chr": "α"}
 
 
@@ -124,7 +127,7 @@ class Fn:
             if isinstance(e.value, int):
                 return (f"({e.value} : Int)" if e.value >= 0 else f"(-{-e.value} : Int)"), "int"
             raise Untranslatable(f"constant {e.value!r}")
-        if isinstance(e, ast.BinOp):
+        if isinstance(e, ast.BinOp) and not isinstance(e.op, ast.BitAnd):
             (a, ta), (b, tb) = self.expr(e.left), self.expr(e.right)
             if isinstance(e.op, ast.Add):
                 if ta == "int" and tb == "int":
@@ -193,6 +196,30 @@ class Fn:
             return f"(!{v})", "bool"
         if isinstance(e, ast.Call):
             return self.call(e)
+        if isinstance(e, ast.BinOp) and isinstance(e.op, ast.BitAnd):
+            (a, ta), (b, tb) = self.expr(e.left), self.expr(e.right)
+            if ta == "strs" and tb == "strs":        # set intersection: the members of the left set that lie in the right one
+                return f"({a}.filter fun y => decide (y ∈ {b}))", "strs"
+            raise Untranslatable("& of non-sets")
+        if isinstance(e, ast.ListComp):
+            if len(e.generators) != 1 or e.generators[0].ifs or e.generators[0].is_async or not isinstance(e.generators[0].target, ast.Name):
+                raise Untranslatable("comprehension with conditions / several loops")
+            it, t = self.expr(e.generators[0].iter)
+            vt = {"ints": "int", "chars": "chr", "str": "chr", "strs": "str"}.get(t)
+            if vt is None:
+                raise Untranslatable(f"comprehension over {t}")
+            saved = dict(self.env)
+            self.env[e.generators[0].target.id] = vt
+            v, tv = self.expr(e.elt)
+            self.env = saved
+            if tv != "int":
+                raise Untranslatable("comprehension of non-integers")
+            return f"({it}.map fun {e.generators[0].target.id} => {v})", "ints"
+        if isinstance(e, ast.Tuple) and len(e.elts) == 2:
+            (a, ta), (b, tb) = self.expr(e.elts[0]), self.expr(e.elts[1])
+            if ta == "int" and tb == "int":
+                return f"({a}, {b})", "pair"
+            raise Untranslatable("tuple of non-integers")
         raise Untranslatable(f"expression {ast.dump(e)[:80]}")
 
     def call(self, e):
@@ -207,6 +234,19 @@ class Fn:
             if any(t != "int" for _v, t in vs):
                 raise Untranslatable("range bound")
             return (f"(Py.range (0 : Int) {vs[0][0]})" if len(vs) == 1 else f"(Py.range {vs[0][0]} {vs[1][0]})"), "ints"
+        if isinstance(fn, ast.Name) and fn.id in ("set", "list") and len(e.args) == 1 and not e.keywords:
+            v, t = self.expr(e.args[0])
+            if t != "strs":
+                raise Untranslatable(f"{fn.id}() of {t}")
+            return (f"(dedup {v})" if fn.id == "set" else v), "strs"      # a set of strings = its distinct members, first occurrences in order
+        if dotted(fn) in ("np.array", "numpy.array", "np.asarray") and len(e.args) == 1 and not e.keywords:
+            return self.expr(e.args[0])
+        if isinstance(fn, ast.Attribute) and fn.attr == "index" and len(e.args) == 1 and not e.keywords:
+            l_, tl = self.expr(fn.value)
+            v, t = self.expr(e.args[0])
+            if tl == "strs" and t == "str":
+                return f"(Py.index {l_} {v})", "int"
+            raise Untranslatable(".index on this expression")
         if isinstance(fn, ast.Name) and self.env.get(fn.id) == "fn":
             if len(e.args) != 1 or e.keywords:
                 raise Untranslatable("call of a function parameter with more than the string")
@@ -242,7 +282,7 @@ class Fn:
                 args.append(v)
             if self.mod.needs_global[fn.id]:
                 args.append(GLOBAL)
-            rt = {"gen": "strs", "bool": "bool", "optnat": "optnat"}[mode]
+            rt = {"gen": "strs", "bool": "bool", "optnat": "optnat", "value": "ints", "acc": "pairs"}[mode]
             return f"({lean_name(fn.id)} " + " ".join(args) + ")", rt
         raise Untranslatable(f"call {ast.dump(fn)[:60]}")
 
@@ -268,11 +308,33 @@ class Fn:
             if not (isinstance(s.value, ast.Constant) and s.value.value is True):
                 raise Untranslatable("a return inside the loops of a search function must be `return True`")
             return f"{pad}[()]"          # (what follows a reached `return True` cannot change "some return True is reached")
+        if isinstance(s, ast.Expr) and isinstance(s.value, ast.Call) and isinstance(s.value.func, ast.Attribute) and s.value.func.attr == "append" \
+                and dotted(s.value.func.value) == getattr(self, "acc", None) and len(s.value.args) == 1 and not search:
+            v, t = self.expr(s.value.args[0])
+            if t != "pair":
+                raise Untranslatable("append of something other than a pair of integers")
+            if not rest:
+                return f"{pad}[{v}]"
+            return f"{pad}[{v}] ++ (\n" + self.gen(rest, ind + 1, search) + ")"
+        if isinstance(s, ast.For) and isinstance(s.target, ast.Tuple) and len(s.target.elts) == 2 and all(isinstance(x, ast.Name) for x in s.target.elts) \
+                and isinstance(s.iter, ast.Call) and dotted(s.iter.func) == "enumerate" and len(s.iter.args) == 1 and not s.iter.keywords and not s.orelse:
+            it, t = self.expr(s.iter.args[0])
+            if t != "strs":
+                raise Untranslatable("enumerate over this expression")
+            i_, x_ = s.target.elts[0].id, s.target.elts[1].id
+            saved = dict(self.env)
+            self.env[i_], self.env[x_] = "int", "str"
+            body = self.gen(list(s.body), ind + 1, search)
+            self.env = saved
+            loop = f"{pad}((Py.enumerate {it}).flatMap fun ({i_}, {x_}) =>\n{body})"
+            if not rest:
+                return loop
+            return loop + " ++ (\n" + self.gen(rest, ind + 1, search) + ")"
         if isinstance(s, ast.Assign):
             if len(s.targets) != 1 or not isinstance(s.targets[0], ast.Name):
                 raise Untranslatable("assignment target")
             v, t = self.expr(s.value)
-            if t not in ("str", "int", "chr"):
+            if t not in ("str", "int", "chr", "strs"):
                 raise Untranslatable(f"local variable of type {t}")
             name = s.targets[0].id
             saved = dict(self.env)
@@ -350,14 +412,14 @@ class Fn:
                 and stmts[0].test.comparators[0].value is None:
             s = stmts[0]
             p = s.test.left.id
-            if self.env.get(p) != "optints" or s.orelse or len(s.body) != 1 or not isinstance(s.body[0], ast.Assign) \
+            if self.env.get(p) not in ("optints", "optstrs") or s.orelse or len(s.body) != 1 or not isinstance(s.body[0], ast.Assign) \
                     or len(s.body[0].targets) != 1 or dotted(s.body[0].targets[0]) != p:
                 raise Untranslatable("`if p is None:` in a form other than `p = <default>`")
             v, t = self.expr(s.body[0].value)
-            if t != "ints":
-                raise Untranslatable("default positions are not a range")
+            if t != {"optints": "ints", "optstrs": "strs"}[self.env[p]]:
+                raise Untranslatable("the value replacing None has another type")
             pre += f"  let {p} := {p}.getD {v}\n"
-            self.env[p] = "ints"
+            self.env[p] = t
             stmts = stmts[1:]
         if self.mode == "gen":
             if any(isinstance(n, ast.Return) for n in ast.walk(self.f)):
@@ -368,6 +430,26 @@ class Fn:
             if not (isinstance(last, ast.Return) and isinstance(last.value, ast.Constant) and last.value.value is False):
                 raise Untranslatable("a search function must end with `return False`")
             ret, body = "Bool", "  !(List.isEmpty (α := Unit) (\n" + self.gen(stmts[:-1], 2, True) + "))"
+        elif self.mode == "value":
+            if len(stmts) != 1 or not isinstance(stmts[0], ast.Return) or stmts[0].value is None:
+                raise Untranslatable("a value function must be a single return (after the None defaults)")
+            v, t = self.expr(stmts[0].value)
+            if t != "ints":
+                raise Untranslatable("the returned value is not a list of integers")
+            ret, body = "List Int", "  " + v
+        elif self.mode == "acc":
+            # `acc = []` ... `acc.append(e)` inside the loops ... `return acc`: the list of the appended values, in order
+            last = stmts[-1] if stmts else None
+            if not (isinstance(last, ast.Return) and isinstance(last.value, ast.Name)):
+                raise Untranslatable("an accumulating function must end with `return <list>`")
+            self.acc = last.value.id
+            inits = [k for k, s_ in enumerate(stmts) if isinstance(s_, ast.Assign) and dotted(s_.targets[0]) == self.acc]
+            if len(inits) != 1 or not (isinstance(stmts[inits[0]].value, ast.List) and not stmts[inits[0]].value.elts):
+                raise Untranslatable("the accumulator must be initialised once, with []")
+            if any(isinstance(n, ast.Name) and n.id == self.acc and not isinstance(getattr(n, "ctx", None), ast.Load) for s_ in stmts[inits[0] + 1:] for n in ast.walk(s_)):
+                raise Untranslatable("the accumulator is rebound")
+            body_stmts = stmts[:inits[0]] + stmts[inits[0] + 1:-1]
+            ret, body = "List (Int × Int)", self.gen(body_stmts, 1, False)
         else:
             ret, body = "Option Nat", self.decide_block(stmts, 1)
         return f"def {lean_name(self.name)} {params} : {ret} :=\n{pre}{body}"
@@ -403,7 +485,7 @@ def main():
            "   Each definition is the Python function of the same name, loop by loop: a generator is the list of the values it",
            "   yields (in order), a search function says whether one of its `return True` is reached, `none` = NotImplementedError;",
            "   the module global `aminoacids` is an explicit parameter. -/",
-           "import Prs.Model.PyStr", "namespace Prs.Generated", "variable {α : Type} [DecidableEq α] [Inhabited α]", ""]
+           "import Prs.Model.PyStr", "import Prs.Model.Search", "namespace Prs.Generated", "variable {α : Type} [DecidableEq α] [Inhabited α]", ""]
     for name in FUNCS:
         try:
             out += [f"/-- `{name}` of {SRC} -/", Fn(mod, name).lean(), ""]
